@@ -902,7 +902,9 @@ def udp_pipeline(ctx, owner, n_quick=2500, n_thorough=60000, mc=True):
 def c08(ctx):
     ctx.rule = ("UDP programs (bind/close/re-open/rebind of destination sockets, sends of 0..65536 bytes in 1-3 buffers, bursts "
                 "against small send buffers, three receive styles with buffers smaller/larger than the datagram, NAT, "
-                "finite queues) from TLC random walks over MCUdp.tla and a seeded generator; executed on real udp sockets "
+                "finite queues) from TLC random walks over MCUdp.tla and a seeded generator, plus the exhaustive small set of two "
+                "receive operations of every pair of styles / buffer sizes issued back to back with 0-2 datagrams queued, then "
+                "cancel / close / a third receive (192 programs); executed on real udp sockets "
                 "in a scripted topology; the trace (send results, arrivals at the last hop, completions with bytes/"
                 "sender/payload check, losses) is validated by TLC against Udp.tla; non-trivial = >= 1 delivery plus a "
                 "close, >= 3 deliveries, or a would_block; distinct by trace text")
